@@ -323,6 +323,19 @@ pub(crate) fn solve_expression(
                         Expression::Boolean(i) => Value::Bool(*i),
                         Expression::Float(i) => Value::Float(*i),
                         Expression::Integer(i) => Value::Int(*i),
+                        Expression::Cast(field, _) => {
+                            // NOTE: Only int() and flt() casts can be compared (`str(k): null`
+                            // ends up here), but a missing field is still missing.
+                            if document.find(field).is_none() {
+                                debug!(
+                                    "evaluating missing, no left hand side for {}",
+                                    expression
+                                );
+                                return SolverResult::Missing;
+                            }
+                            debug!("encountered invalid left hand side for {}", expression);
+                            return SolverResult::False;
+                        }
                         _ => {
                             debug!("encountered invalid left hand side for {}", expression);
                             return SolverResult::False;
